@@ -326,7 +326,17 @@ def _views(c, prog):
     c.inst("R7.byte-views", "Builder::push_opcode appends the code byte and records the opcode",
            ef == [("mutarg", "std::vec::Vec::<T, A>::push", "arg1.0", ["arg1.0", "opcodes::All::into_u8(arg2)"]), ("assign", None, "arg1.1", "std::option::Option::Some{arg2}")]
            and show(Prov(f.body).local(0), -9) == "arg1", "effects %s" % ef, f.where(), f.path)
-    c.floor("R7.byte-views", 13)
+    # Builder::from(bytes): the remembered last opcode is the *last instruction* when it is an opcode, nothing otherwise (push_verify
+    # folds into it; remembering an earlier opcode makes a following data push look like that opcode)
+    fb_ = prog.fn("<script::Builder as std::convert::From<std::vec::Vec<u8>>>::from")
+    tb = show(Prov(fb_.body).local(0), -40)
+    LAST = "std::iter::Iterator::last(script::Script::instructions(script::Script::Script{std::vec::Vec::into_boxed_slice(arg1)}))"
+    okb = (tb == "script::Builder::Builder{script::Script::into_bytes(script::Script::Script{std::vec::Vec::into_boxed_slice(arg1)}), "
+                 "phi(std::option::Option::None{} | std::option::Option::Some{ok(some(%s)).0})}" % LAST
+           or tb == "script::Builder::Builder{script::Script::into_bytes(script::Script::Script{std::vec::Vec::into_boxed_slice(arg1)}), "
+                    "phi(std::option::Option::Some{ok(some(%s)).0} | std::option::Option::None{})}" % LAST)
+    c.inst("R7.byte-views", "Builder::from(bytes): same bytes, last_op = the last instruction if it is an opcode", okb, "returns %s" % tb[:300], fb_.where(), fb_.path)
+    c.floor("R7.byte-views", 14)
 
 
 def _classify_total(c, prog, ops):
